@@ -47,6 +47,18 @@
 (* reveal it only some steps later, so the walker follows all candidate     *)
 (* states.  Stop may come at any time.                                      *)
 (*                                                                         *)
+(* CloseSub = the producer of the block subscription closes the           *)
+(* Notifications channel (subscription cancelled, subscription manager      *)
+(* stopped before the Broadcaster) at any quiescent point.  The handler's   *)
+(* arm :205 then is ALWAYS ready: it logs a warning (:207) and goes back to *)
+(* the select (:209 continue) - a step that changes nothing, so it is not   *)
+(* in HSteps; Go's select chooses uniformly among the ready arms, so the    *)
+(* other arms are still served (the driver gates the log call and lets the  *)
+(* handler go round the loop 256 times per quiescence).  What changes: no   *)
+(* block event can be delivered any more; everything else goes on - ticks   *)
+(* rebroadcast, Broadcast / MarkAsConfirmed / Stop return.  Observable wn = *)
+(* the handler is parked in the warning of its closed-channel arm.          *)
+(*                                                                         *)
 (* FixMarkQuit = MarkAsConfirmed selects on quit as well (the code after   *)
 (* the repair of defect 8); FALSE = plain send on confChan.                *)
 (***************************************************************************)
@@ -62,6 +74,7 @@ CONSTANTS NTx,        \* transactions 1..NTx; parents of i are a subset of 1..i-
                       \* Mined(tx, class) = the rescan (real extractBlockMatches) finds tx in a block,
                       \* class in Rels = why the tx is relevant to it: "spend" (a watched input),
                       \* "pay" (only an output to a watched address), "both", "neither"
+          MayClose,   \* TRUE: the block subscription may close its Notifications channel (CloseSub)
           MaxWait,    \* how many parties may wait for the busy handler at once (big steps)
           Fine        \* TRUE: small-step semantics (model-level check), FALSE: big steps (replay)
 
@@ -146,7 +159,7 @@ CSteps(x) ==
 IntSucc(x) == HSteps(x) \cup RSteps(x) \cup CSteps(x)
 
 \* Nothing of a dead handler is ever read again.
-Canon(x) == IF x.h = "dead" THEN [x EXCEPT !.tick = 0, !.txs = {}] ELSE x
+Canon(x) == IF x.h = "dead" THEN [x EXCEPT !.tick = 0, !.txs = {}, !.closed = FALSE] ELSE x
 
 RECURSIVE Settle(_)
 Settle(x) == LET n == IntSucc(x)
@@ -162,6 +175,7 @@ ObsOf(x) ==
       rcb   == IF x.rb = "cb" THEN x.rbCur ELSE 0
       gates == hcb # 0 \/ rcb # 0
   IN  [par |-> x.par, hcb |-> hcb, rcb |-> rcb, rn |-> x.rn,
+       wn  |-> IF x.closed /\ x.h = "idle" THEN 1 ELSE 0,
        bc  |-> IF x.bc = "none" THEN 0 ELSE IF gates THEN 1 ELSE 2,
        bcRes |-> x.lastB,
        mk  |-> IF x.mk = "none" THEN 0 ELSE IF gates THEN 1 ELSE 2,
@@ -196,10 +210,12 @@ EMark(x, t) == [x EXCEPT !.mk = "send", !.mktx = t, !.nops = @ + 1, !.nm = @ + 1
 \* to MarkAsConfirmed :1107 (so the call blocks exactly as MarkCall does); a tx
 \* the rescan does not care about is not reported.
 EMined(x, t, r) == IF r = "neither" THEN [x EXCEPT !.nops = @ + 1, !.nm = @ + 1] ELSE EMark(x, t)
-GBlock(x)   == x.h = "idle" /\ x.nops < MaxOps
+GBlock(x)   == x.h = "idle" /\ ~x.closed /\ x.nops < MaxOps
 EBlock(x)   == Trigger([x EXCEPT !.nops = @ + 1])          \* :205
 GTick(x)    == x.h # "dead" /\ x.tick = 0 /\ x.nops < MaxOps
 ETick(x)    == [x EXCEPT !.tick = 1, !.nops = @ + 1]       \* the ticker fires
+GClose(x)   == MayClose /\ ~x.closed /\ x.h # "dead" /\ x.nops < MaxOps
+EClose(x)   == [x EXCEPT !.closed = TRUE, !.nops = @ + 1]  \* close(sub.Notifications) by its producer
 GStop(x)    == x.stp = "none"
 EStop(x)    == [x EXCEPT !.stp = "wait", !.quit = TRUE]    \* :115
 
@@ -223,6 +239,7 @@ Mined(t, r)  == GMark(s)  /\ Do(EMined(S0, t, r), "Mined", t, r)
 Block        == GBlock(s) /\ Do(EBlock(S0), "Block", 0, "")
 Tick         == GTick(s)  /\ Do(ETick(S0), "Tick", 0, "")
 Stop         == GStop(s)  /\ Do(EStop(S0), "Stop", 0, "")
+CloseSub     == GClose(s) /\ Do(EClose(S0), "CloseSub", 0, "")
 
 \* SMALL STEPS (Fine = TRUE; model-level check only, nothing is exported): the
 \* environment may move at ANY moment, also between two steps of the code, and
@@ -236,6 +253,7 @@ FineNext ==
      \/ GBlock(s) /\ s' = EBlock(s)
      \/ GTick(s) /\ s' = ETick(s)
      \/ GStop(s) /\ s' = EStop(s)
+     \/ GClose(s) /\ s' = EClose(s)
      \/ \E y \in IntSucc(s) : s' = y
   /\ UNCHANGED <<abs, act, viol>>
 
@@ -244,7 +262,7 @@ Init ==
        s = [par |-> [i \in Txs |-> AscSeq(f[i])],
             txs |-> {}, h |-> "idle", hreq |-> 0,
             bc |-> "none", bctx |-> 0, mk |-> "none", mktx |-> 0,
-            stp |-> "none", quit |-> FALSE, sem |-> 1, tick |-> 0,
+            stp |-> "none", quit |-> FALSE, closed |-> FALSE, sem |-> 1, tick |-> 0,
             rb |-> "none", rbAll |-> {}, rbSent |-> {}, rbQ |-> <<>>,
             rbCur |-> 0, rbOut |-> "none",
             nops |-> 0, nm |-> 0, rn |-> 0, lastB |-> 0, reply |-> 0]
@@ -261,6 +279,7 @@ BigNext ==
   \/ Block
   \/ Tick
   \/ Stop
+  \/ CloseSub
 
 Next == IF Fine THEN FineNext ELSE BigNext
 
@@ -271,7 +290,7 @@ TypeOK ==
   /\ s.txs \subseteq Txs /\ s.rbAll \subseteq Txs /\ s.rbSent \subseteq s.rbAll
   /\ s.h \in {"idle", "cb", "dead"} /\ s.hreq \in 0..NTx
   /\ s.bc \in {"none", "send", "wait"} /\ s.mk \in {"none", "send"}
-  /\ s.stp \in {"none", "wait", "done"} /\ s.quit \in BOOLEAN
+  /\ s.stp \in {"none", "wait", "done"} /\ s.quit \in BOOLEAN /\ s.closed \in BOOLEAN
   /\ s.sem \in {0, 1} /\ s.tick \in {0, 1}
   /\ s.rb \in {"none", "next", "cb", "ret", "conf", "fin"}
 
